@@ -419,6 +419,13 @@ def main(run):
         "NSTART hold-back is C08's: drivers keep at most NSTART CONs per session in flight",
         "allocation never fails (C18)"]
     run.prove()
+    if run.tier != "quick" and getattr(run, "proof_broken", None) is None:
+        # independent re-check of the compiled property file and everything it depends on
+        rc, out = vlib.sh(["coqchk", "-silent", "-o", "-Q", vlib.COQ, "LibcoapV", "LibcoapV.Properties_C06"],
+                          cwd=vlib.COQ, timeout=1500, check=False)
+        run.cov["coqchk"] = {"rc": rc, "tail": out.strip().splitlines()[-6:]}
+        if rc != 0:
+            run.violation("coqchk rejects Properties_C06.vo", out[-4000:], tag="coqchk", no_input=True)
     model = vlib.build_model()
     drv = vlib.build_driver("h_sched", ["h_sched.c"], wraps=WRAPS)
     r = tie.rng_for(run, "c06")
@@ -433,10 +440,10 @@ def main(run):
     cases = [(None, ln) for ln in corpus if ln.startswith("c06 ")]
     leaf_corpus = [ln for ln in corpus if not ln.startswith("c06 ")]
     gens = []
-    n_sched = 150 if quick else 6000
-    n_multi = 900 if quick else 90000
-    n_big = 60 if quick else 8000
-    n_ns1 = 150 if quick else 12000
+    n_sched = 300 if quick else 6000
+    n_multi = 2500 if quick else 90000
+    n_big = 150 if quick else 8000
+    n_ns1 = 400 if quick else 12000
     n_long = 12 if quick else 200
     for _ in range(n_sched):
         gens.append(G.gen_schedule_case(r))
